@@ -7,8 +7,7 @@ import PegVerif.Proofs.AlwaysLemmas
 
   Property theorems (statements only; helper lemmas are in Proofs/).  `World P cfg env G inp`
   collects what is assumed about the emitted program `P` (every function is the emission of its
-  rule's body, labels unique, `CheckAlwaysSucceeds` sound, AST mode, memoisation disabled — the
-  memo-enabled configuration is C06) and about the input (runes below the end symbol).
+  rule's body, labels unique, `CheckAlwaysSucceeds` sound, AST mode; memoisation may be on or off, see C06) and about the input (runes below the end symbol).
 -/
 namespace PegVerif
 
@@ -34,7 +33,7 @@ theorem C01_refines (hW : World P cfg env G inp) {n cr res evs o s'}
     (hrun : Exec P cfg inp cr 0 St.init Frame.empty (o, s')) :
     (o = .ret true ↔ ∃ p' f, res = .ok p' f) ∧ (∀ p' f, res = .ok p' f → s'.pos = p') ∧
     (o = .ret false ↔ res = .fail) ∧ o ≠ .panic := by
-  have h := R_rule_all hW hfind hev rfl (Nat.zero_le _) (by simp [St.init]) (by simp [St.init]) hrun
+  have h := R_rule_all hW hfind hev rfl (Nat.zero_le _) (by simp [St.init]) memoOK_init hrun
   cases res with
   | ok p' f =>
     obtain ⟨h1, h2, _⟩ := h
@@ -57,15 +56,16 @@ theorem C01_refines (hW : World P cfg env G inp) {n cr res evs o s'}
     parse, entry by any rule constant). -/
 theorem C01_refines_anywhere (hW : World P cfg env G inp) {n cr p res evs s o s'}
     (hfind : P.find n = some cr) (hev : Eval G cfg.rho inp (.name n) p res evs)
-    (hpos : s.pos = p) (hple : p ≤ inp.length) (hlen : s.ti ≤ s.tree.length) (hm : s.memo = [])
-    (hrun : Exec P cfg inp cr 0 s Frame.empty (o, s')) : RuleSpec s p res evs o s' :=
+    (hpos : s.pos = p) (hple : p ≤ inp.length) (hlen : s.ti ≤ s.tree.length)
+    (hm : MemoOK P G cfg.rho inp s.memo s.maxTok.e)
+    (hrun : Exec P cfg inp cr 0 s Frame.empty (o, s')) : RuleSpec P G cfg.rho inp s p res evs o s' :=
   R_rule_all hW hfind hev hpos hple hlen hm hrun
 
 /-- … and such a run exists (the emitted function terminates whenever the semantics does). -/
 theorem C01_run_exists (hW : World P cfg env G inp) {n cr res evs}
     (hfind : P.find n = some cr) (hev : Eval G cfg.rho inp (.name n) 0 res evs) :
     ∃ o s', Exec P cfg inp cr 0 St.init Frame.empty (o, s') :=
-  let ⟨o, s', h, _⟩ := R_rule hW hfind hev rfl (Nat.zero_le _) (by simp [St.init]) (by simp [St.init])
+  let ⟨o, s', h, _⟩ := R_rule hW hfind hev rfl (Nat.zero_le _) (by simp [St.init]) memoOK_init
   ⟨o, s', h⟩
 
 /-- The executable model used by the T-run tie obeys the theorem (it is not a separate artefact). -/
@@ -78,7 +78,7 @@ theorem C01_parseF (hW : World P cfg env G inp) {n cr res evs fuel pr st}
   R_parseF hW hfind hev hrun hfuel
 
 /-- **C01 for the generator itself** (default options without `-inline`/`-switch`, memoisation
-    disabled): for every linked grammar that passes the decidable check `GrammarOK` (terminals below the
+    enabled or disabled): for every linked grammar that passes the decidable check `GrammarOK` (terminals below the
     end symbol, no reference from an emitted rule to a rule without function) and is `plain` (no
     `-switch`/`-inline` nodes), every input of valid runes, and every rule with an emitted function:
     each run of the function the MODEL GENERATOR emits returns true exactly when the PEG semantics
@@ -87,15 +87,15 @@ theorem C01_parseF (hW : World P cfg env G inp) {n cr res evs fuel pr st}
     very program. -/
 theorem C01_generated_parser (G : Grammar) (o : Opts) (cfg : Cfg) (inp : List Sym)
     (hinl : o.inline = false) (hsw : o.switch = false) (hast : o.ast = true)
-    (hcfg : cfg.ast = true) (hmemo : cfg.memo = false)
-    (hinp : ∀ c ∈ inp, c ≠ END) (hG : GrammarOK G = true) (hplain : G.plain)
+    (hcfg : cfg.ast = true)
+    (hinp : ∀ c ∈ inp, c ≠ END) (hG : GrammarOK G = true) (hL : LinkedOK G = true) (hplain : G.plain)
     {n cr res evs out s'} (hfind : (compileAll o G).find n = some cr)
     (hev : Eval G cfg.rho inp (.name n) 0 res evs)
     (hrun : Exec (compileAll o G) cfg inp cr 0 St.init Frame.empty (out, s')) :
     (out = .ret true ↔ ∃ p' f, res = .ok p' f) ∧ (∀ p' f, res = .ok p' f → s'.pos = p') ∧
     (out = .ret false ↔ res = .fail) ∧ out ≠ .panic :=
   C01_refines
-    (compileAll_world hsw hinl hast hcfg hmemo hinp hG (fun _ h => alwaysSucceeds_sound hplain h))
+    (compileAll_world hsw hinl hast hcfg hinp hG hL (fun _ h => alwaysSucceeds_sound hplain h))
     hfind hev hrun
 
 /-! Non-vacuity: a grammar using sequence, choice, `*`, `!`, rule reference and a capture has
@@ -112,9 +112,9 @@ example : ∃ evs, Eval exG (fun _ _ => true) [97, 99] (.name "S") 0 .fail evs :
 
 /-- The hypotheses of `C01_generated_parser` are satisfiable: the example grammar passes both checks
     and both of its rules get a function. -/
-example : GrammarOK exG = true ∧ exG.plain ∧ ((compileAll {} exG).find "S").isSome = true ∧
+example : GrammarOK exG = true ∧ LinkedOK exG = true ∧ exG.plain ∧ ((compileAll {} exG).find "S").isSome = true ∧
     ((compileAll {} exG).find "A").isSome = true :=
-  ⟨by decide, Grammar.plain_of_all (by decide), by decide, by decide⟩
+  ⟨by decide, by decide, Grammar.plain_of_all (by decide), by decide, by decide⟩
 
 end PegVerif
 
